@@ -44,6 +44,60 @@ HOSTS: list[tuple[str | None, bool | None]] = [
 TRUSTED_IDX = [i for i, (_, v) in enumerate(HOSTS) if v is True]
 
 
+class SimLock:
+    """The lock of the shared failed-attempts counter, owned by the scheduler: an actor that finds it taken is parked
+    and the baton goes to the holder, instead of a real thread blocking while it holds the baton (re-entrant, like the
+    RLock of multiprocessing.Value)."""
+
+    def __init__(self) -> None:
+        self.owner = None
+        self.depth = 0
+        self.baton = None
+        self.me = None
+        self.waiters: list = []
+        self.contended = 0
+
+    def __enter__(self):
+        key = getattr(self.me, "key", None) if self.me is not None else None
+        if self.baton is None or key is None:
+            return self
+        while self.owner is not None and self.owner != key:
+            self.contended += 1
+            self.waiters.append(key)
+            self.baton.block(key)
+            self.baton.switch_to(key, self.owner)
+        self.owner = key
+        self.depth += 1
+        return self
+
+    def __exit__(self, *exc):
+        if self.baton is None or self.owner is None:
+            return False
+        self.depth -= 1
+        if self.depth == 0:
+            self.owner = None
+            for w in self.waiters:
+                self.baton.unblock(w)
+            self.waiters.clear()
+        return False
+
+    acquire = __enter__
+
+    def release(self):
+        self.__exit__()
+
+
+class SimValue:
+    """Stands in for ``multiprocessing.Value('B')`` (the attempts counter)."""
+
+    def __init__(self, value: int = 0) -> None:
+        self.value = value
+        self.lock = SimLock()
+
+    def get_lock(self):
+        return self.lock
+
+
 class SimClock:
     """Stands in for the ``time`` module inside werkzeug.debug."""
 
@@ -123,7 +177,7 @@ class DebuggerGates(Scenario):
         elif style == "concurrent":
             for _ in range(rng.randrange(0, 9)):
                 steps.append(["req", {"kind": "pinauth", "secret": "right", "host": 0, "cookie": "absent", "frame": "known", "pin": "wrong"}])
-            steps.append(["concurrent", [rng.choice(["wrong", "wrong", "right"]) for _ in range(rng.randrange(2, 6))]])
+            steps.append(["concurrent", [rng.choice(["wrong", "wrong", "right", "stale"]) for _ in range(rng.randrange(2, 6))]])
             steps.append(["req", {"kind": "pinauth", "secret": "right", "host": 0, "cookie": "absent", "frame": "known", "pin": "right"}])
         else:
             for _ in range(n):
@@ -134,7 +188,7 @@ class DebuggerGates(Scenario):
                     steps.append(["restart"])
                 else:
                     steps.append(["req", gen_request(rng)])
-        return {"evalex": rng.random() < 0.85, "pin_on": rng.random() < 0.85, "steps": steps, "tape": [rng.randrange(0, 4) for _ in range(40)]}
+        return {"evalex": rng.random() < 0.85, "pin_on": rng.random() < 0.85, "steps": steps, "tape": [rng.randrange(0, 4) for _ in range(40 if style != "concurrent" else rng.choice([40, 200, 600]))]}
 
     # ------------------------------------------------------------------
     def execute(self, case: dict) -> Outcome:
@@ -176,6 +230,7 @@ class DebuggerGates(Scenario):
             st["prev_secret"] = getattr(st.get("dbg"), "secret", None)
             dbg = wd.DebuggedApplication(failing_app, evalex=evalex, pin_security=True, pin_logging=False)
             dbg.secret = f"secret-of-instance-{st['instance']}"
+            dbg._failed_pin_auth = SimValue(0)  # same interface; its lock is scheduled by the simulator
             dbg.frames[SPY_ID] = SpyFrame(spy_calls, "frame")
             dbg.frames[0] = SpyFrame(spy_calls, "console")
             st["dbg"] = dbg
@@ -403,15 +458,17 @@ class DebuggerGates(Scenario):
         out.nontrivial = st["dependent"] and nreq > 1
 
     def concurrent(self, pins, case, st, clock, call, model_trust, advance, judge, spy_calls, out, tr, vio) -> None:
-        """Several pinauth attempts in real threads; the only yield point inside pin_auth is the simulated
-        sleep after the counter update, so each attempt's check-and-update is atomic and the sequential
-        model applies in the order in which the attempts start."""
-        baton = Baton(Tape(case.get("tape")))
+        """Several pinauth attempts in real threads.  Every line of werkzeug/debug/__init__.py and the simulated sleep
+        are pre-emption points, so an attempt can be suspended between its lockout check and its counter update.  The
+        attempts overlap, hence no order among them is prescribed: the outcome must be explainable by *some* sequential
+        order of the attempts (linearizability against the sequential PIN model), including the final counter."""
+        import itertools
+        import json as _json
+
+        baton = Baton(Tape(case.get("tape")), trace_suffixes=("werkzeug/debug/__init__.py",))
         baton.add_controller("ctl")
-        order: list[int] = []
         results: dict[int, tuple] = {}
-        before: dict[int, tuple] = {}
-        pins = [p for p in pins if p in ("right", "wrong")][:6]
+        pins = [p for p in pins if p in ("right", "wrong", "stale")][:6]  # "stale": a cookie issued for another PIN
         if not pins or os.environ.get("WERKZEUG_DEBUG_PIN") == "off":
             return
         me = threading.local()
@@ -422,18 +479,20 @@ class DebuggerGates(Scenario):
                 baton.yield_any(key)
 
         clock.on_sleep = on_sleep
+        lock = st["dbg"]._failed_pin_auth.get_lock()
+        lock.baton, lock.me = baton, me
+        start_failed = st["failed"]
+        now0 = clock.now
 
         def worker(i, pin):
             def body():
                 me.key = f"a{i}"
-                spec = {"kind": "pinauth", "secret": "right", "host": 0, "cookie": "absent", "frame": "known", "pin": pin}
-
-                def started():
-                    order.append(i)
-                    before[i] = (st["failed"], len(spy_calls), clock.now)
-                    advance(spec, model_trust(None))  # the attempt's decision is taken before it sleeps
-
-                results[i] = (spec, call(spec, record_start=started))
+                spec = {"kind": "pinauth", "secret": "right", "host": 0, "cookie": "wrong_hash" if pin == "stale" else "absent", "frame": "known", "pin": "wrong" if pin == "stale" else pin}
+                baton.tracing.add(me.key)
+                try:
+                    results[i] = (spec, call(spec))
+                finally:
+                    baton.tracing.discard(me.key)
 
             return body
 
@@ -444,22 +503,62 @@ class DebuggerGates(Scenario):
             baton.join_all()
         finally:
             clock.on_sleep = None
+            lock.baton = lock.me = None
         if baton.errors:
             e = baton.errors[0][1]
             if isinstance(e, HarnessError):
                 raise e
             vio(f"request-raises/{type(e).__name__}/kind=pinauth-concurrent", f"{type(e).__name__}: {e}")
             return
-        out.fault("preempted_inside_sleep", baton.switches)
+        if lock.contended:
+            out.fault("counter_lock_contended", lock.contended)
+        out.fault("preempted_inside_sleep_or_between_lines", baton.switches)
+        out.fault("preemption_point_inside_debugger", baton.preempt_lines)
         out.probe("concurrent_attempts", len(pins))
-        tr.add("concurrent", pins, "start-order", order)
-        for i in order:
-            spec, result = results[i]
-            failed_before, calls_before, now0 = before[i]
-            judge(spec, result, calls_before, failed_before, model_trust(None), now0)
+        observed = {}
+        for i, (spec, result) in results.items():
+            try:
+                data = _json.loads(result[2])
+                observed[i] = (bool(data.get("auth")), bool(data.get("exhausted")))
+            except ValueError:
+                vio("pinauth-response-not-json", f"status {result[0]} body {result[2][:80]!r}")
+                return
         real_failed = getattr(getattr(st["dbg"], "_failed_pin_auth", None), "value", None)
-        if real_failed is not None and real_failed != st["failed"] and not out.violations:
-            vio("failed-attempt-counter-differs-from-model", f"counter {real_failed}, model {st['failed']} after concurrent attempts {pins} started in order {order}")
+
+        def step(counter, pin):
+            if pin == "stale":
+                return (False, False), counter + 1  # counted as a failure before anything else is looked at
+            if counter > 10:
+                return (False, True), counter
+            if pin == "right":
+                return (True, False), 0
+            return (False, False), counter + 1
+
+        found = None
+        for perm in itertools.permutations(range(len(pins))):
+            c = start_failed
+            ok = True
+            for i in perm:
+                exp, c = step(c, pins[i])
+                if observed.get(i) != exp:
+                    ok = False
+                    break
+            if ok and (real_failed is None or real_failed == c):
+                found = (perm, c)
+                break
+        tr.add("concurrent", pins, "observed", [observed.get(i) for i in range(len(pins))], "counter", start_failed, "->", real_failed, "order", found[0] if found else None)
+        if found is None:
+            vio("concurrent-pin-attempts-not-linearizable", f"{len(pins)} overlapping attempts {pins} from counter {start_failed} were answered {[observed.get(i) for i in range(len(pins))]} and left the counter at {real_failed}: no sequential order of the attempts gives that")
+            return
+        perm, c = found
+        # let the ordinary per-request judge look at each response (cookies), in the explaining order
+        cc = start_failed
+        for i in perm:
+            spec, result = results[i]
+            st["failed"] = step(cc, pins[i])[1]
+            judge(spec, result, len(spy_calls), cc, None if pins[i] == "stale" else model_trust(None), now0)
+            cc = st["failed"]
+        st["failed"] = c
 
 
 # ---------------------------------------------------------------------------
